@@ -11,8 +11,7 @@ def run(ctx):
     for d in ("params_repeat", "dep_row0"):
         ctx.mc("MC_Samplers", "MC_Samplers_" + d, workers=2, env={"OUT_FILE": os.path.join(ctx.work, "unused.ndjson")}, expect_violation="AbsOK", note="deviation %s must break the model" % d)
     if ctx.replay:
-        scen = [json.load(open(ctx.replay))["trace"]["scenario"]]
-        scen[0].pop("tid", None)
+        scen = ctx.replay_scenarios()
     else:
         scen = ctx.gen("Gen_C02", "Gen_C02")
         if ctx.quick:
